@@ -129,6 +129,16 @@ CHECKS = {
         "Trusted: harness/routing.py RefRouter as the statement of C05.",
         "DESIGN.md section 4, C05",
     ),
+    "C06": (
+        "exploration",
+        "Hypothesis deployments x write targets x value notations x fragmentations through the real Client, server handlers and Router; before/after snapshot frame oracle + mirror comparison",
+        "Generated-input search through the whole stack in one process: a real network Client assigns and submits values (all notations) "
+        "to a generated target over fake pipes with generated fragmentation; a snapshot of every element of every device before and "
+        "after must differ exactly at the targeted elements, by the submitted values (numbers by the value the sent text denotes), and "
+        "the client's view must equal the drivers' state; a second submit() must write nothing. Exploration.",
+        "Trusted: harness/stack.py, harness/net.py (fake pipes), harness/refnum.py; read-only vectors are not targeted.",
+        "DESIGN.md section 4, C06",
+    ),
     "C07": (
         "exploration",
         "Hypothesis-generated driver definitions x op histories x request matrix, expectation computed from the generating spec, library parse-back of every emitted message",
